@@ -131,6 +131,10 @@ func c12DrawCase(rt *rapid.T) *c12Case {
 	if cs.Split == len(changes) && rapid.IntRange(0, 4).Draw(rt, "stdin") == 0 {
 		cs.Stdin = true
 	}
+	if rapid.IntRange(0, 24).Draw(rt, "brokenPatch") == 0 {
+		// a patch gopatch rejects: dry runs must still leave everything alone
+		cs.Changes[len(cs.Changes)-1] = c14Mangle(rt, cs.Changes[len(cs.Changes)-1], "breakPatch")
+	}
 
 	cs.Files = c14DrawFiles(rt, changes, rapid.IntRange(1, 6).Draw(rt, "nFiles"))
 	letters := []string{"a", "m", "z", "B"}
@@ -472,6 +476,7 @@ func evalC12(cs *c12Case) (sig, msg string, info c12Info) {
 	abs := func(n string) string { return filepath.Join(root, filepath.FromSlash(n)) }
 
 	runs := map[string]*c12Run{}
+	rejected := false
 	for _, mode := range []string{"inplace", "print", "diff", "diff+print"} {
 		r := c12Exec(base, cs, mode)
 		runs[mode] = r
@@ -485,14 +490,18 @@ func evalC12(cs *c12Case) (sig, msg string, info c12Info) {
 			info.Unjudged = mode + ": " + r.Bad
 			return
 		}
-		if strings.Contains(r.Stderr, "load patch") {
-			info.Unjudged = "patch rejected by the CLI"
-			return
-		}
-		// (a) dry runs never write.
+		// (a) dry runs never write, whatever the patch and the inputs.
 		if mode != "inplace" && len(r.TreeDiff) > 0 {
 			return "dry-run-wrote:" + mode, fmt.Sprintf("gopatch %s changed the file system:\n  %s\n%s", strings.Join(r.Argv, " "), strings.Join(r.TreeDiff, "\n  "), cs.describe()), info
 		}
+		if strings.Contains(r.Stderr, "load patch") {
+			rejected = true
+		}
+	}
+	if rejected {
+		info.class("patch-rejected:dry-runs-checked")
+		info.Unjudged = "patch rejected by the CLI"
+		return
 	}
 	w, pr, df := runs["inplace"], runs["print"], runs["diff"]
 
